@@ -93,18 +93,38 @@ namespace c12
         }
     }
 
-    // compile-probed on the unchanged tree: simde_AVX512 x double does not compile for hardshrink/hardswish/softshrink
-    // (simde_k{not,xor}_mask8 are not declared by the installed simde) and for matmul (fmadd calls the _ps intrinsic)
+    // compile-probed on the unchanged tree: simde_AVX512 does not compile for hardshrink/hardswish/softshrink
+    // (simde_knot_mask{8,16} / simde_kxor_mask{8,16} are not declared by the installed simde) and, for double, for matmul
+    // (simd_op_t::fmadd calls the _ps intrinsic)
     template <typename T>
     constexpr bool simde_f8_excluded = (C12_CTX == 6) && std::is_same_v<T, double>;
+    constexpr bool simde_excluded = (C12_CTX == 6);
+
+    // vh::emit_array, plus the single element of a 0-dim ndarray (reduce of a 1-d array over its axis, keepdims=false)
+    template <typename A>
+    void emit(vh::Out& out, const A& a)
+    {
+        if constexpr (meta::is_maybe_v<A>) {
+            if (!nm::has_value(a)) { out.tok("N"); return; }
+            emit(out, nm::unwrap(a));
+        } else if constexpr (meta::is_num_v<A>) {
+            vh::emit_array(out, a);
+        } else {
+            vh::emit_array(out, a);
+            if (vh::to_vec(nm::shape(a)).size() == 0) {
+                using elem_t = meta::get_element_type_t<A>;
+                out.num(static_cast<elem_t>(*nm::data(a)));
+            }
+        }
+    }
 
     template <typename S, typename V>
     void emit_pair(vh::Out& out, const S& scalar_result, const V& simd_result, int ok)
     {
         out.tok("SC");
-        vh::emit_array(out, scalar_result);
+        emit(out, scalar_result);
         out.tok("SI");
-        vh::emit_array(out, simd_result);
+        emit(out, simd_result);
         out.tok("OK");
         out.i(ok);
     }
@@ -147,17 +167,17 @@ namespace c12
         case 4: C12_RUN(view::relu6(a), na::relu6(a), na::relu6(a, C12_CTX_OBJ)); break;
         case 5: C12_RUN(view::hardtanh(a, p0, p1), na::hardtanh(a, p0, p1), na::hardtanh(a, p0, p1, C12_CTX_OBJ)); break;
         case 6:
-            if constexpr (c12::simde_f8_excluded<T>) out.tok("UNSUP");
+            if constexpr (c12::simde_excluded) out.tok("UNSUP");
             else C12_RUN(view::hardshrink(a, p0), na::hardshrink(a, p0), na::hardshrink(a, p0, C12_CTX_OBJ));
             break;
         case 7:
-            if constexpr (c12::simde_f8_excluded<T>) out.tok("UNSUP");
+            if constexpr (c12::simde_excluded) out.tok("UNSUP");
             else C12_RUN(view::hardswish(a), na::hardswish(a), na::hardswish(a, C12_CTX_OBJ));
             break;
         case 8: C12_RUN(view::leaky_relu(a, p0), na::leaky_relu(a, p0), na::leaky_relu(a, p0, C12_CTX_OBJ)); break;
         case 9: C12_RUN(view::prelu(a, p0), na::prelu(a, p0), na::prelu(a, p0, C12_CTX_OBJ)); break;
         case 10:
-            if constexpr (c12::simde_f8_excluded<T>) out.tok("UNSUP");
+            if constexpr (c12::simde_excluded) out.tok("UNSUP");
             else C12_RUN(view::softshrink(a, p0), na::softshrink(a, p0), na::softshrink(a, p0, C12_CTX_OBJ));
             break;
         case 11: C12_RUN(view::softsign(a), na::softsign(a), na::softsign(a, C12_CTX_OBJ)); break;
